@@ -33,6 +33,10 @@ pub enum Layout {
     D,
     /// `[f32; 2]`
     E,
+    /// `[f64; 4]`
+    F,
+    /// `[f32; 3]` again: the Oklab-based types
+    G,
 }
 
 impl Layout {
@@ -43,6 +47,8 @@ impl Layout {
             Layout::C => &family::FAMILY_C,
             Layout::D => &family::FAMILY_D,
             Layout::E => &family::FAMILY_E,
+            Layout::F => &family::FAMILY_F,
+            Layout::G => &family::FAMILY_G,
         }
     }
     fn k(self) -> u8 {
@@ -50,7 +56,7 @@ impl Layout {
     }
     fn ncomp(self) -> usize {
         match self {
-            Layout::C => 4,
+            Layout::C | Layout::F => 4,
             Layout::D => 1,
             Layout::E => 2,
             _ => 3,
@@ -63,10 +69,29 @@ impl Layout {
             Layout::C => 16,
             Layout::D => 4,
             Layout::E => 8,
+            Layout::F => 32,
+            Layout::G => 12,
         }
+    }
+    /// the component words are `f64` bits (otherwise `f32` bits, widened)
+    fn is_f64(self) -> bool {
+        matches!(self, Layout::B | Layout::F)
     }
     fn has_single(self) -> bool {
         !matches!(self, Layout::A)
+    }
+    const ALL: [Layout; 7] = [Layout::A, Layout::B, Layout::C, Layout::D, Layout::E, Layout::F, Layout::G];
+    /// name of the per-layout plan counter (`extra_counters` in the evidence)
+    fn plans_counter(self) -> &'static str {
+        match self {
+            Layout::A => "world-A-plans:[f32;3]",
+            Layout::B => "world-A-plans:[f64;3]",
+            Layout::C => "world-A-plans:[f32;4]",
+            Layout::D => "world-A-plans:[f32;1]",
+            Layout::E => "world-A-plans:[f32;2]",
+            Layout::F => "world-A-plans:[f64;4]",
+            Layout::G => "world-A-plans:[f32;3] Ok",
+        }
     }
     fn name(self) -> &'static str {
         match self {
@@ -75,6 +100,8 @@ impl Layout {
             Layout::C => "[f32;4]",
             Layout::D => "[f32;1]",
             Layout::E => "[f32;2]",
+            Layout::F => "[f64;4]",
+            Layout::G => "[f32;3] Ok",
         }
     }
 }
@@ -177,12 +204,12 @@ pub fn same_words(layout: Layout, a: &Words, b: &Words) -> bool {
         }
         // any NaN equals any NaN (unspecified bits), and +0 equals -0 (the same value; which zero a
         // `max(x, 0.0)` returns depends on the argument order, not on anything the property promises)
-        let same_value = match layout {
-            Layout::B => {
+        let same_value = match layout.is_f64() {
+            true => {
                 let (x, y) = (f64::from_bits(a[j]), f64::from_bits(b[j]));
                 (x.is_nan() && y.is_nan()) || (x == 0.0 && y == 0.0)
             }
-            _ => {
+            false => {
                 let (x, y) = (f32::from_bits(a[j] as u32), f32::from_bits(b[j] as u32));
                 (x.is_nan() && y.is_nan()) || (x == 0.0 && y == 0.0)
             }
@@ -201,14 +228,14 @@ pub fn same_buffers(layout: Layout, a: &[Words], b: &[Words]) -> bool {
 /// An operator applied through the guard: `x * scale + add` on every component.
 pub fn mutate_words(w: Words, layout: Layout, scale_bits: u64, add_bits: u64) -> Words {
     let mut out = w;
-    match layout {
-        Layout::B => {
+    match layout.is_f64() {
+        true => {
             let (s, a) = (f64::from_bits(scale_bits), f64::from_bits(add_bits));
-            for x in out.iter_mut().take(3) {
+            for x in out.iter_mut().take(layout.ncomp()) {
                 *x = (f64::from_bits(*x) * s + a).to_bits();
             }
         }
-        _ => {
+        false => {
             let (s, a) = (f64::from_bits(scale_bits) as f32, f64::from_bits(add_bits) as f32);
             for x in out.iter_mut().take(layout.ncomp()) {
                 *x = (f32::from_bits(*x as u32) * s + a).to_bits() as u64;
@@ -225,6 +252,8 @@ pub fn convert_words(layout: Layout, from: u8, to: u8, unclamped: bool, w: Words
         Layout::C => family::convert_c(from, to, unclamped, w),
         Layout::D => family::convert_d(from, to, unclamped, w),
         Layout::E => family::convert_e(from, to, unclamped, w),
+        Layout::F => family::convert_f(from, to, unclamped, w),
+        Layout::G => family::convert_g(from, to, unclamped, w),
     }
 }
 
@@ -400,9 +429,9 @@ impl<'c, 'a> Exec<'c, 'a> {
             for (j, x) in w.iter().enumerate() {
                 // NaNs are digested as one value (their bits are unspecified)
                 let nan = j < self.layout.ncomp()
-                    && match self.layout {
-                        Layout::B => f64::from_bits(*x).is_nan(),
-                        _ => f32::from_bits(*x as u32).is_nan(),
+                    && match self.layout.is_f64() {
+                        true => f64::from_bits(*x).is_nan(),
+                        false => f32::from_bits(*x as u32).is_nan(),
                     };
                 self.obs.u64(if nan { u64::MAX } else { *x });
             }
@@ -410,9 +439,9 @@ impl<'c, 'a> Exec<'c, 'a> {
             if !same_words(self.layout, &w, &self.words[i]) {
                 let ncomp = self.layout.ncomp();
                 let show = |w: &Words| -> String {
-                    match self.layout {
-                        Layout::B => format!("{:?}", w[..3].iter().map(|x| f64::from_bits(*x)).collect::<Vec<_>>()),
-                        _ => format!("{:?}", w[..ncomp].iter().map(|x| f32::from_bits(*x as u32)).collect::<Vec<_>>()),
+                    match self.layout.is_f64() {
+                        true => format!("{:?}", w[..ncomp].iter().map(|x| f64::from_bits(*x)).collect::<Vec<_>>()),
+                        false => format!("{:?}", w[..ncomp].iter().map(|x| f32::from_bits(*x as u32)).collect::<Vec<_>>()),
                     }
                 };
                 let detail = format!(
@@ -458,9 +487,9 @@ fn gen_words(rng: &mut Rng, layout: Layout) -> Words {
     let mut w = [0u64; 4];
     for x in w.iter_mut().take(layout.ncomp()) {
         let v = gen_component(rng);
-        *x = match layout {
-            Layout::B => v.to_bits(),
-            _ => (v as f32).to_bits() as u64,
+        *x = match layout.is_f64() {
+            true => v.to_bits(),
+            false => (v as f32).to_bits() as u64,
         };
     }
     w
@@ -548,12 +577,16 @@ impl World for C13 {
         if index < self.enumerated(tier) {
             return Plan::Crash(crashes[index as usize].clone());
         }
-        let layout = match index % 7 {
-            0..=2 => Layout::A,
-            3 => Layout::B,
-            4 => Layout::C,
-            5 => Layout::D,
-            _ => Layout::E,
+        // the modulus stays coprime to the `index % 4` (deep) and `index % 50` (big) strata below, so that every
+        // layout gets its deep and its big plans; A keeps a little under half (5 in 11, it was 3 in 7)
+        let layout = match index % 11 {
+            0..=4 => Layout::A,
+            5 => Layout::B,
+            6 => Layout::C,
+            7 => Layout::D,
+            8 => Layout::E,
+            9 => Layout::F,
+            _ => Layout::G,
         };
         // the thorough tier spends a quarter of its plans beyond the quick tier's bounds:
         // buffers up to 96 colors, 90 guard operations, guard chains up to 6 deep
@@ -580,7 +613,7 @@ impl World for C13 {
         // other sign, a hue whole turns away): whatever a per-element loop carries from one element to the next
         // (a remembered result, a run-length fast path) shows only there, and independent draws never produce it.
         if len >= 2 && rng.chance(1, 6) {
-            let is_f64 = matches!(layout, Layout::B);
+            let is_f64 = layout.is_f64();
             let get = |w: u64| if is_f64 { f64::from_bits(w) } else { f32::from_bits(w as u32) as f64 };
             let put = |v: f64| if is_f64 { v.to_bits() } else { (v as f32).to_bits() as u64 };
             for i in 1..len.min(128) {
@@ -660,6 +693,8 @@ impl World for C13 {
                 Layout::C => exec_c(*orig, buf, *extra_cap, episodes, ctx),
                 Layout::D => exec_d(*orig, buf, *extra_cap, episodes, ctx),
                 Layout::E => exec_e(*orig, buf, *extra_cap, episodes, ctx),
+                Layout::F => exec_f(*orig, buf, *extra_cap, episodes, ctx),
+                Layout::G => exec_g(*orig, buf, *extra_cap, episodes, ctx),
             },
         }
     }
@@ -722,6 +757,8 @@ impl World for C13 {
                 Layout::C => [0.5f32.to_bits() as u64; 4],
                 Layout::D => [0.5f32.to_bits() as u64, 0, 0, 0],
                 Layout::E => [0.5f32.to_bits() as u64, 0.5f32.to_bits() as u64, 0, 0],
+                Layout::F => [0.5f64.to_bits(); 4],
+                Layout::G => [0.5f32.to_bits() as u64, 0.5f32.to_bits() as u64, 0.5f32.to_bits() as u64, 0],
             };
             if *w != simple && i < 8 {
                 let mut b = buf.clone();
@@ -732,9 +769,34 @@ impl World for C13 {
         out
     }
 
+    /// The (current type x operation) grid has more than 400 cells since the families F and G were added, and the
+    /// driver leaves a grid of that size out of the evidence: it is written from here instead, together with a
+    /// summary per layout family (the type names are unique across families).
+    fn extra_evidence(&self, stats: &simcore::core::Stats) -> serde_json::Value {
+        let mut grid = serde_json::Map::new();
+        for ((a, b), n) in stats.grid.iter() {
+            grid.insert(format!("{a} x {b}"), serde_json::json!(*n));
+        }
+        let mut fams = serde_json::Map::new();
+        for layout in Layout::ALL {
+            let cells: Vec<u64> = stats.grid.iter().filter(|((a, _), _)| layout.names().contains(a)).map(|(_, n)| *n).collect();
+            fams.insert(
+                layout.name().to_string(),
+                serde_json::json!({
+                    "types": layout.names(),
+                    "plans": stats.extra.get(layout.plans_counter()).copied().unwrap_or(0),
+                    "grid_cells": cells.len(),
+                    "grid_min_hits": cells.iter().copied().min().unwrap_or(0),
+                    "steps": cells.iter().sum::<u64>(),
+                }),
+            );
+        }
+        serde_json::json!({ "coverage_grid": grid, "coverage_by_family": fams })
+    }
+
     fn info(&self) -> WorldInfo {
         WorldInfo {
-            rule: "world A: plan = (layout family in {[f32;3] x 7 types, [f64;3] x 5, [f32;4] x 5 Alpha types, [f32;1] x 2 Luma types, [f32;2] x 2 Lumaa types}, original type, buffer of 0..24 colors \
+            rule: "world A: plan = (layout family in {[f32;3] x 7 types, [f64;3] x 5, [f32;4] x 5 Alpha types, [f32;1] x 2 Luma types, [f32;2] x 2 Lumaa types, [f64;4] x 4 Alpha types, [f32;3] x 4 Oklab-based types}, original type, buffer of 0..24 colors \
                    with in-range, boundary and out-of-range components, <=3 episodes; an episode is a guard tree (open clamped|unclamped via \
                    from_color_mut|into_color_mut, then a body over {read, write, mutate, then_into_color_mut, then_into_color_unclamped_mut, \
                    into_unclamped_guard/into_clamped_guard, nest to depth 4}, ended by drop|restore|forget|unwind), a single-value guard tree, \
@@ -811,6 +873,7 @@ macro_rules! exec_layout {
             let layout: Layout = $layout;
             let mut owner: $buf = $make(orig, buf, extra_cap as usize);
             let names = layout.names();
+            ctx.extra(layout.plans_counter(), 1);
             ev!(ctx, "layout={} original={} len={} capacity+{}", layout.name(), names[orig as usize], buf.len(), extra_cap);
             if buf.is_empty() {
                 ctx.probe("zero-length-buffer");
@@ -1047,3 +1110,5 @@ exec_layout!(exec_b, Layout::B, family::make_b, family::readout_b, family::open_
 exec_layout!(exec_c, Layout::C, family::make_c, family::readout_c, family::open_c, family::open_single_c, family::vecconv_c, family::BufC);
 exec_layout!(exec_d, Layout::D, family::make_d, family::readout_d, family::open_d, family::open_single_d, family::vecconv_d, family::BufD);
 exec_layout!(exec_e, Layout::E, family::make_e, family::readout_e, family::open_e, family::open_single_e, family::vecconv_e, family::BufE);
+exec_layout!(exec_f, Layout::F, family::make_f, family::readout_f, family::open_f, family::open_single_f, family::vecconv_f, family::BufF);
+exec_layout!(exec_g, Layout::G, family::make_g, family::readout_g, family::open_g, family::open_single_g, family::vecconv_g, family::BufG);
